@@ -119,6 +119,9 @@ def build_operator(spec: dict) -> dict:
         c = 10.0 ** rng.uniform(-7, 0, max(n - 1, 0))
         ph = np.exp(1j * rng.uniform(-math.pi, math.pi, max(n - 1, 0))) if cplx else np.ones(max(n - 1, 0))
         dg = rng.choice([0.0, 1.0], n) * rng.uniform(-1, 1, n)
+        if spec.get("couplings") is not None:                   # explicit chain (path realisation)
+            c = np.asarray(spec["couplings"], dtype=float)
+            dg = np.asarray(spec["diag"], dtype=float)
         h = np.diag(dg).astype(complex)
         for i in range(n - 1):
             h[i, i + 1] = c[i] * ph[i]
